@@ -129,7 +129,7 @@ def stage_honesty(rep):
 def run_prog_case(case):
     vlib.use_repo()
     import numdifftools as nd
-    table, (pi, m, n, order, a, kind, sk, arr) = case
+    table, (pi, m, n, order, a, kind, sk, arr, cval) = case
     r = RECS[pi]
     c = r['c'][0] / r['c'][1]
     f0 = exprs.make_fun(r['prog'], c, a)
@@ -211,7 +211,7 @@ def run(tier, rep):
     nchk = nrec = untamed = 0
     ratios = []
     for case, o in zip(cases, outs):
-        pi, m, n, order, a, kind, sk, arr = case
+        pi, m, n, order, a, kind, sk, arr, cval = case
         r = uniq[pi]
         name = '%s @ c=%s a=%r | %s n=%d order=%d step=%s%s' % ('.'.join(r['prog']), '/'.join(map(str, r['c'])), a, m, n, order, kind, ' array' if arr else '')
         if o[0] == 'raise':
